@@ -100,6 +100,13 @@ def apply_edit(pkg: M.Package, rng: Rng, kind: str, only=None, only_steps=None):
         r = rng.choice(cands)
         n = r.fields.pop(rng.randrange(len(r.fields)))[0]
         return "remove_field %s.%s" % (r.name, n)
+    if kind == "remove_last_field":
+        cands = [r for r in recs if len(r.fields) > 1]
+        if not cands:
+            return None
+        r = rng.choice(cands)
+        n = r.fields.pop()[0]
+        return "remove_last_field %s.%s" % (r.name, n)
     if kind == "widen_field":
         cands = [(r, i) for r in recs for i, (_, t) in enumerate(r.fields)
                  if (isinstance(t, Prim) and t.name in WIDEN) or (isinstance(t, Opt) and isinstance(t.inner, Prim) and t.inner.name in WIDEN)]
@@ -375,7 +382,7 @@ def evolve(pkg: M.Package, rng: Rng, n: int, kinds) -> tuple:
 RECORD_EDITS = ["add_optional_field", "remove_optional_field", "reorder_fields", "add_field", "remove_field", "widen_field", "make_optional", "widen_vector_field", "make_required"]
 
 
-def with_versions(pkg: M.Package, rng: Rng, n_versions: int, partial: bool, must_edit=(), order="oldest_first", p_new_protocol=0.0, layout="siblings", widen_steps=(), widen_aliases=(), union_steps=(), to_union_steps=()) -> M.Package:
+def with_versions(pkg: M.Package, rng: Rng, n_versions: int, partial: bool, must_edit=(), order="oldest_first", p_new_protocol=0.0, layout="siblings", widen_steps=(), widen_aliases=(), union_steps=(), to_union_steps=(), tail_records=()) -> M.Package:
     """Treat pkg as the oldest version; evolve it n_versions times; the newest package lists all
     its predecessors under `versions:`.  Returns the newest package.
     must_edit: names of records that each get at least one record edit in every evolution step."""
@@ -414,6 +421,11 @@ def with_versions(pkg: M.Package, rng: Rng, n_versions: int, partial: bool, must
                 l.append(d)
         if partial and to_union_steps and r6.chance(0.4):
             d = apply_edit(cur, r6, "widen_to_union", only_steps=tuple(r6.sample(list(to_union_steps), 1)))
+            if d:
+                l.append(d)
+        r7 = rng.fork("tail", i)
+        if partial and tail_records and r7.chance(0.6):
+            d = apply_edit(cur, r7, "remove_last_field", only=tuple(tail_records))
             if d:
                 l.append(d)
         r2 = rng.fork("must", i)
